@@ -639,7 +639,9 @@ func main() {
 				bad, inc, out := replayFile(b, path, replayLimit)
 				if r.exit == 3 {
 					// bounded time: only a replay that again does not finish counts, and it must do so twice
-					if bad && strings.Contains(out, "[replay exceeded") {
+					// (alone in its process a self-deadlock is noticed by the Go runtime, which ends the process
+					// with "all goroutines are asleep - deadlock!": the call can never return)
+					if bad && (strings.Contains(out, "[replay exceeded") || strings.Contains(out, "all goroutines are asleep - deadlock!")) {
 						hangs++
 						confirmed = hangs >= 2
 					}
